@@ -68,6 +68,92 @@ func runC05(p *load.Program, r *oblig.Report) {
 	// the Conn/Reader path's offset reconstruction (relative inner offsets of v1 wrappers, v2 deltas) is checked by
 	// C02.R6; the same obligations are part of this property's "same records and absolute offsets" clause
 	shareRules(r, "C05", "C05.R9 Conn path reconstructs absolute offsets", func(sub *oblig.Report) { c02MessageReader(p, sub) })
+	varintAcrossRefills(p, r, "C05.R10 a varint split across two buffer fills keeps its low bits")
+}
+
+// varintAcrossRefills: readVarInt consumes the buffered bytes and, when the varint continues in bytes that are not
+// buffered yet, discards what it has seen and refills. The bits of the discarded bytes must survive into the value:
+// the value stored through v depends on an integer that is carried around the loop past that Discard.
+func varintAcrossRefills(p *load.Program, r *oblig.Report, rule string) {
+	fn := p.Func("", "readVarInt")
+	if fn == nil {
+		r.Lost(rule, "kafka.readVarInt")
+		return
+	}
+	var store *ssa.Store
+	var discards []*ssa.Call
+	an.EachInstr(fn, func(ins ssa.Instruction) {
+		switch x := ins.(type) {
+		case *ssa.Store:
+			if prm, ok := x.Addr.(*ssa.Parameter); ok && prm == fn.Params[len(fn.Params)-1] {
+				store = x
+			}
+		case *ssa.Call:
+			if sc := x.Call.StaticCallee(); sc != nil && an.ShortFunc(sc) == "(*bufio.Reader).Discard" {
+				discards = append(discards, x)
+			}
+		}
+	})
+	if store == nil {
+		r.Lost(rule, "store through the result parameter of kafka.readVarInt")
+		return
+	}
+	// integer φ-nodes the stored value is computed from (through arithmetic and conversions only)
+	phis := map[*ssa.Phi]bool{}
+	seen := map[ssa.Value]bool{}
+	var walk func(v ssa.Value)
+	walk = func(v ssa.Value) {
+		if seen[v] {
+			return
+		}
+		seen[v] = true
+		switch x := v.(type) {
+		case *ssa.BinOp:
+			walk(x.X)
+			walk(x.Y)
+		case *ssa.UnOp:
+			if x.Op != token.MUL {
+				walk(x.X)
+			}
+		case *ssa.Convert:
+			walk(x.X)
+		case *ssa.Phi:
+			if b, ok := x.Type().Underlying().(*types.Basic); ok && b.Info()&types.IsInteger != 0 {
+				phis[x] = true
+			}
+			for _, e := range x.Edges {
+				walk(e)
+			}
+		}
+	}
+	walk(store.Val)
+	nRefill := 0
+	var lost []string
+	for _, d := range discards {
+		q := an.PathQuery{Fn: fn, Target: func(i ssa.Instruction) bool { return i == ssa.Instruction(store) }}
+		if q.ReachableFrom(an.PointOf(d)) == nil {
+			continue // the final discard of a complete varint
+		}
+		nRefill++
+		carried := false
+		for ph := range phis {
+			nonConst := false
+			for _, e := range ph.Edges {
+				if _, isC := e.(*ssa.Const); !isC {
+					nonConst = true
+				}
+			}
+			q2 := an.PathQuery{Fn: fn, Target: func(i ssa.Instruction) bool { return i == ssa.Instruction(ph) }}
+			if nonConst && q2.ReachableFrom(an.PointOf(d)) != nil {
+				carried = true
+			}
+		}
+		if !carried {
+			lost = append(lost, "the bytes discarded at "+p.Pos(d.Pos())+" do not reach the value decoded afterwards")
+		}
+	}
+	r.Check(len(lost) == 0 && nRefill > 0, rule, "kafka.readVarInt carries the bits already seen across the discard that makes room for more input", p.Pos(fn.Pos()),
+		"x and s live across the refill (x |= uint64(b&0x7f) << s before r.Discard(len(input)))", strings.Join(lost, "; "))
 }
 
 // shareRules runs rules written for another property and files their obligations under this property's own rule name.
